@@ -204,13 +204,30 @@ Section TokenProofs.
   Lemma sig_eqb_refl a : sig_eqb a a = true.
   Proof. apply sig_eqb_spec. reflexivity. Qed.
 
+  Lemma expiry_of_in_range t0 d : in_int64 (t0 + duration_of d) -> expiry_of t0 d = (t0 + duration_of d)%Z.
+  Proof.
+    unfold in_int64, expiry_of. intro H. cbv zeta.
+    destruct (2 ^ 63 <=? t0 + duration_of d)%Z eqn:E; [apply Z.leb_le in E; lia|reflexivity].
+  Qed.
+
+  (* a duration that would carry the expiry past the largest instant: the token expires there *)
+  Lemma expiry_of_saturates t0 d : (2 ^ 63 <= t0 + duration_of d)%Z -> expiry_of t0 d = (2 ^ 63 - 1)%Z.
+  Proof. unfold expiry_of. intro H. cbv zeta. apply Z.leb_le in H. rewrite H. reflexivity. Qed.
+
+  Lemma expiry_of_int64 t0 d : (- 2 ^ 63 <= t0 + duration_of d)%Z -> in_int64 (expiry_of t0 d).
+  Proof.
+    unfold in_int64, expiry_of. intro H. cbv zeta.
+    destruct (2 ^ 63 <=? t0 + duration_of d)%Z eqn:E; [lia|apply Z.leb_gt in E; lia].
+  Qed.
+
   (* C20 main statement for issued tokens *)
   Lemma issued_validates_iff key user t0 d key' user' now :
     in_int64 (t0 + duration_of d) ->
     validate key' user' now (issue key user t0 d) = true <->
     key' = key /\ user' = user /\ (now < t0 + duration_of d)%Z.
   Proof.
-    intro He. unfold Model.validate, Model.issue. cbn [tsig tid tcavs Model.mint].
+    intro He. unfold Model.validate, Model.issue. rewrite (expiry_of_in_range _ _ He).
+    cbn [tsig tid tcavs Model.mint].
     rewrite verify_caveats_issued by exact He.
     rewrite !andb_true_iff, sig_eqb_spec, bytes_eqb_eq, Z.ltb_lt.
     split.
@@ -224,6 +241,40 @@ Section TokenProofs.
   Proof.
     intros He Hn. destruct (validate key' user' now (issue key user t0 d)) eqn:E; [|reflexivity].
     apply issued_validates_iff in E; [|exact He]. lia.
+  Qed.
+
+  (* the same for every duration that does not carry the sum below the smallest instant (the
+     clock reading is not negative, so that needs a duration below -2^63 + t0): the expiry instant
+     is expiry_of, i.e. the sum, or the largest instant where the sum would pass it *)
+  Lemma issued_validates_iff_gen key user t0 d key' user' now :
+    (- 2 ^ 63 <= t0 + duration_of d)%Z ->
+    validate key' user' now (issue key user t0 d) = true <->
+    key' = key /\ user' = user /\ (now < expiry_of t0 d)%Z.
+  Proof.
+    intro He. pose proof (expiry_of_int64 _ _ He) as Hi.
+    unfold Model.validate, Model.issue. cbn [tsig tid tcavs Model.mint].
+    rewrite verify_caveats_issued by exact Hi.
+    rewrite !andb_true_iff, sig_eqb_spec, bytes_eqb_eq, Z.ltb_lt.
+    split.
+    - intros (Hs & Hu & Hn). apply chain_inj in Hs as (Hk & _ & _). subst. tauto.
+    - intros (-> & -> & Hn). tauto.
+  Qed.
+
+  (* the server name (repair of F96): with a validating server named, a token whose location is
+     another name is refused; and whatever validate_at accepts, validate accepts *)
+  Lemma validate_at_other_server srv loc key user now t :
+    srv <> [] -> loc <> srv -> validate_at sigT mac0 macS sig_eqb srv loc key user now t = false.
+  Proof.
+    intros Hs Hl. unfold validate_at. destruct srv as [|c r]; [congruence|].
+    destruct (bytes_eqb loc (c :: r)) eqn:E; [apply bytes_eqb_eq in E; congruence|reflexivity].
+  Qed.
+
+  Lemma validate_at_sound srv loc key user now t :
+    validate_at sigT mac0 macS sig_eqb srv loc key user now t = true ->
+    validate key user now t = true /\ (srv = [] \/ loc = srv).
+  Proof.
+    unfold validate_at. destruct srv as [|c r]; [intro H; split; [exact H|left; reflexivity]|].
+    intro H. apply andb_true_iff in H as [E H]. apply bytes_eqb_eq in E. split; [exact H|right; exact E].
   Qed.
 
   Lemma issued_reveals_user key user t0 d : user_of sigT (issue key user t0 d) = user.
